@@ -166,3 +166,17 @@ Theorem generated_overlap_coefficient_split_bounded :
   ltac:(let t := type of overlap_coefficient_join_split_rows_refines_bounded in exact t).
 Proof. exact overlap_coefficient_join_split_rows_refines_bounded. Qed.
 Print Assumptions generated_overlap_coefficient_split_bounded.
+
+(* ---- tie: the remaining public wrappers as REGENERATED from the source on this run (Gen/WrapperGen.v,
+   Gen/FilterWrapperGen.v over Model/Frame.v): overlap_coefficient_join_py, edit_distance_join_py,
+   overlap_join_py and the filters' filter_tables compute header_spec + the rows of api_join (entry
+   EJoin / EFilter / EOverlapFilter) through the declared projection, per chunk up to order *)
+From SSJ Require Import Frame WrapperGen FilterWrapperGen WrapperBody WrapperApiLink WrapperEnd WrapperRefineOvc WrapperRefineEd FilterWrapperRefineOverlap FilterWrapperRefine FilterWrapperRefineClosed.
+Theorem generated_overlap_coefficient_wrapper_refines_model :
+  ltac:(let t := type of overlap_coefficient_join_rows_end_to_end_flat in exact t).
+Proof. exact overlap_coefficient_join_rows_end_to_end_flat. Qed.
+Print Assumptions generated_overlap_coefficient_wrapper_refines_model.
+Theorem generated_overlap_join_wrapper_refines_model :
+  ltac:(let t := type of overlap_join_rows_end_to_end_flat in exact t).
+Proof. exact overlap_join_rows_end_to_end_flat. Qed.
+Print Assumptions generated_overlap_join_wrapper_refines_model.
